@@ -334,12 +334,20 @@ def case_stream_search(ctx, rng, idx):
     """The stream-selecting wrappers (greedy stream reduction, brute force over
     stream combinations) drive an iterative solver repeatedly; whatever they
     settle on, the wrapped solver must be left with a valid solution."""
-    name = ["maxsinr", "mmse", "altmin", "minleak"][idx % 4]
-    wrapper = "greedy" if (idx // 4) % 3 else "brute-force"
+    name = ["maxsinr", "mmse", "altmin", "minleak", "maxsinr"][int(rng.integers(0, 5))]
+    wrapper = "greedy" if rng.random() < 0.55 else "brute-force"
     K = int(rng.integers(2, 4))
-    M = int(rng.integers(2, 5)) if wrapper == "greedy" else int(rng.integers(2, 4))
-    Nr, Nt = [M] * K, [M] * K
+    M = int(rng.integers(2, 5)) if wrapper == "greedy" else int(rng.integers(2, 5))
     ns = int(rng.integers(1, M)) if M > 1 else 1
+    if wrapper == "brute-force":
+        ns = min(ns, 2)                   # (the search is exponential in the stream count)
+    weak = idx % 4 == 1
+    if weak:
+        # the configuration in which the iterative solver itself drops a dead
+        # stream of a user with hardly any power, inside the wrapper's search
+        name = ["maxsinr", "mmse"][int(rng.integers(0, 2))]
+        K, M, ns = 3, int(rng.integers(3, 5)), 2
+    Nr, Nt = [M] * K, [M] * K
     if wrapper == "greedy" and M >= 3 and rng.random() < 0.6:
         ns = int(rng.integers(2, M))                  # room for stream reduction
     noise = float(10.0 ** rng.uniform(-4, 0))
@@ -347,9 +355,18 @@ def case_stream_search(ctx, rng, idx):
     s = SOLVERS[name](mu)
     if hasattr(s, "_rs"):
         s._rs.seed(int(rng.integers(0, 2 ** 31)))
-    s.max_iterations = int(rng.choice([5, 20, 60]))
+    s.max_iterations = int(rng.choice([0, 1, 5, 20, 60])) if not weak else \
+        int(rng.choice([5, 20, 60]))
     P = [None, float(10.0 ** rng.uniform(-1, 2)), 10.0 ** rng.uniform(-1, 2, size=K)][
         int(rng.integers(0, 3))]
+    if weak or (rng.random() < 0.3 and ns >= 2):
+        # one user with hardly any power: its weakest stream dies and the solver
+        # itself reduces that user's stream count
+        P = 10.0 ** rng.uniform(1, 2.5, size=K)
+        P[int(rng.integers(0, K))] = 10.0 ** rng.uniform(-5, -3)
+        noise = float(10.0 ** rng.uniform(-9, -6))
+        mu.noise_var = noise
+        ctx.tally("stream-search:weak-user:%s(%s)" % (wrapper, name))
     tag = {"wrapper": wrapper, "solver": name, "K": K, "M": M, "Ns": ns, "P": P, "noise": noise,
            "max_iterations": s.max_iterations}
     w = IA.GreedStreamIASolver(s) if wrapper == "greedy" else IA.BruteForceStreamIASolver(s)
@@ -380,6 +397,8 @@ def case_stream_search(ctx, rng, idx):
            cls="%s:streams-within-request" % wrapper, detail={**tag, "final_Ns": got_Ns})
     check_relations(ctx, s, "%s(%s)" % (wrapper, name), Hkl, False,
                     {**tag, "final_Ns": got_Ns})
+    if any(x < ns for x in got_Ns):
+        ctx.tally("stream-search:%s-ended-with-fewer-streams" % wrapper)
     ctx.sample("stream-search", {**tag, "final_Ns": got_Ns})
     ctx.sig(wrapper, name, K, M, ns, tuple(got_Ns), P is None)
 
@@ -476,7 +495,7 @@ def classify(w):
 GENS = {
     "solve": Gen(case_solve, 350, 70000),
     "leakage": Gen(case_leakage, 120, 24000),
-    "stream-search": Gen(case_stream_search, 90, 9000),
+    "stream-search": Gen(case_stream_search, 160, 16000),
 }
 MIN_EVALS = {"identity-equivalent-channel": 1500, "unit-norm-precoder": 1500,
              "power-limit": 3000, "shapes-and-stream-counts": 1500,
